@@ -166,7 +166,7 @@ type shower§ interface{ Show() }
 	fmt.Println(w.label, w.Value(), w.acc§.Value())`,
 			`var sh shower§ = &acc§{n: 9}
 	sh.Show()`,
-			`fmt.Println(time.Unix(0, 0).UTC().Year(), time.Duration(3)*time.Second)`,
+			`fmt.Println(time.Unix(0, 0).UTC().Year(), 3*time.Second)`,
 			`fmt.Println(strings.NewReader("xyz").Len(), errors.New("e§").Error())`,
 			`var sb strings.Builder
 	sb.WriteString("sb")
